@@ -176,6 +176,12 @@ def undisc_shapes():
     # self-loop trap at 1, start mass on both
     out.append(Shape(3, 2, [[0, 1], [0], [0]], {(0, 0): {1: Q1, 2: Q3}, (0, 1): {2: 1}, (1, 0): {1: 1}, (2, 0): {2: 1}},
                      absorb=[2], s0={0: H, 1: H}, gamma=F(1), name='selfloop-trap'))
+    # zero-reward idle loop at 1 kept non-absorbing by an unused exit action; 0 is transient and cannot reach the goal under "idle"
+    out.append(Shape(3, 2, [[0], [0, 1], [0]], {(0, 0): {1: 1}, (1, 0): {1: 1}, (1, 1): {2: 1}, (2, 0): {2: 1}},
+                     absorb=[2], gamma=F(1), name='idle-loop'))
+    out.append(Shape(4, 2, [[0, 1], [0, 1], [0, 1], [0]], {(0, 0): {1: H, 2: H}, (0, 1): {3: 1}, (1, 0): {1: 1}, (1, 1): {3: 1},
+                                                          (2, 0): {1: 1}, (2, 1): {2: Q1, 3: Q3}, (3, 0): {3: 1}},
+                     absorb=[3], gamma=F(1), s0={0: H, 2: H}, name='idle-loop-4'))
     return out
 
 
@@ -267,6 +273,11 @@ def jobs(tier):
             for combo in policies(sh, tier):
                 yield ('eval_discounted', dict(shape=i, gamma=g, combo=list(combo)), o)
         yield ('eval_discounted', dict(shape=i, gamma='1/2', combo=list(policies(sh, 'quick')[-1]), via='functional'), o)
+    # discount rates close to (but below) 1 are still discounted
+    for i in [1, 2, 4]:
+        for combo in policies(SHAPES[i], 'quick')[:3]:
+            yield ('eval_discounted', dict(shape=i, gamma='999999/1000000', combo=list(combo)), o)
+            yield ('eval_discounted', dict(shape=i, gamma='99/100', combo=list(combo)), o)
     for i in ([1, 2, 3] if quick else [1, 2, 3, 4, 5]):
         yield ('eval_symbolic_policy', dict(shape=i, gamma='1/2'), dict(o, timeout_ms=120000))
     for i, sh in enumerate(UNDISC):
